@@ -230,8 +230,12 @@ Definition write_at (r : list byte) (off : N) (d : list byte) : list byte * N * 
   let '(size, e) := size_of r in
   if e =? E_OK then
     if size <? off then
-      let '(r1, e1) := pad r (off - size) in
-      if e1 =? E_OK then append r1 d else (r1, 0, e1)
+      match d with
+      | [] => (r, 0, E_OK)          (* fix F19: a zero-length write beyond EOF does not pad *)
+      | _ =>
+        let '(r1, e1) := pad r (off - size) in
+        if e1 =? E_OK then append r1 d else (r1, 0, e1)
+      end
     else if off =? size then append r d
     else
       let clen := N.min size (off + lenN d) - off in
